@@ -130,6 +130,7 @@ func init() {
 	properties["C05"].Units = append(properties["C05"].Units,
 		l3Unit("numbers", map[string]int{"KINDS": 6, "DEPTH": 0}, "C05.", "number/integer properties: 7 bound shapes x nullable x required x inline/$ref"),
 		l3Unit("numbers-in-arrays-and-objects", map[string]int{"KINDS": 48, "DEPTH": 1, "ITEMKINDS": 6, "NUMSHAPES": 4}, "C05.", "numbers as array items and as members of a nested object"),
+		l3UnitT("integers/min-sized", map[string]int{"KINDS": 4, "DEPTH": 0, "MINSIZED": 1, "NUMSHAPEMASK": 40, "REF": 0}, map[string]int{"KINDS": 4, "DEPTH": 0, "MINSIZED": 1}, "C05.", "integer properties with --min-sized-ints on and off (the option may narrow the Go type but the emitted bounds must still denote the stated interval)"),
 		l3UnitT("multiple-of", map[string]int{"KINDS": 6, "DEPTH": 0, "NUMSHAPES": 2, "MULT": 6}, map[string]int{"KINDS": 6, "DEPTH": 0, "NUMSHAPES": 4, "MULT": 6}, "C05.",
 			"number/integer properties with multipleOf 1, 0.5, 3, 2.5 or 300 (integral and fractional, alone or next to bounds) x nullable x required x inline/$ref: accepted iff the value is an exact multiple (remainders within the emitted 1e-10 tolerance carry no promise)"))
 	reg(&Property{
@@ -182,15 +183,21 @@ func init() {
 	reg(&Property{ID: "C01", Units: append(l3All("C01."),
 		l3Unit("min-sized-ints", map[string]int{"KINDS": 4, "DEPTH": 0, "MINSIZED": 1}, "C01.", "integer properties with --min-sized-ints on and off: every bound literal fits the sized type that was chosen"),
 		l3Unit("defaults", map[string]int{"KINDS": 15, "DEPTH": 0, "DEFAULTS": 1, "NUMSHAPES": 3, "STRSHAPES": 3, "NONULL": 1}, "C01.", "properties with a default together with value constraints (default + validator interplay in the emitted method)"),
-		l3UnitT("option-combinations", map[string]int{"KINDS": 8191, "DEPTH": 1, "N": 1, "DESC": 1, "CFG": 1, "NODOC": 1, "NUMSHAPES": 2, "STRSHAPES": 2, "ARRSHAPES": 1, "NULLABLE": 0},
-			map[string]int{"KINDS": 8191, "DEPTH": 1, "N": 1, "DESC": 1, "CFG": 1, "NODOC": 1, "NUMSHAPES": 2, "STRSHAPES": 2, "ARRSHAPES": 2}, "C01.",
+		l3UnitT("option-combinations", map[string]int{"KINDS": 16383, "DEPTH": 1, "N": 1, "DESC": 1, "CFG": 1, "NODOC": 1, "NUMSHAPES": 2, "STRSHAPES": 2, "ARRSHAPES": 1, "NULLABLE": 0},
+			map[string]int{"KINDS": 16383, "DEPTH": 1, "N": 1, "DESC": 1, "CFG": 1, "NODOC": 1, "NUMSHAPES": 2, "STRSHAPES": 2, "ARRSHAPES": 2}, "C01.",
 			"every kind of the grammar (incl. typed maps, string-or-null enums) at depth <= 1 x all 32 combinations of --only-models, --extra-imports, --struct-name-from-title, --tags yaml, --capitalization x descriptions/titles with newlines, quotes, backticks, comment terminators and format verbs: the emitted file type-checks against its own imports and is gofmt-stable (no document is decoded in this unit)"),
+		l3Unit("pattern-text", map[string]int{"KINDS": 49, "DEPTH": 1, "ITEMKINDS": 1, "PATTEXT": 1, "NODOC": 1, "ARRSHAPES": 1}, "C01.",
+			"string properties (plain, nullable, required, via $ref, as array items and object members) whose pattern contains format verbs (%d, %%): the pattern reaches the emitted regexp call unchanged and the file type-checks"),
 		l3UnitT("multiple-of", map[string]int{"KINDS": 6, "DEPTH": 0, "NUMSHAPEMASK": 9, "MULT": 6, "MINSIZED": 1, "REF": 0, "NULLABLE": 0},
 			map[string]int{"KINDS": 6, "DEPTH": 0, "NUMSHAPEMASK": 9, "MULT": 6, "MINSIZED": 1}, "C01.",
 			"number/integer properties with multipleOf (integral, fractional, larger than a narrow type) with and without --min-sized-ints: the emitted remainder test type-checks (math import, operand conversions, constant operands)")),
 		Assumptions: []string{"go/types with the real dependency packages decides type-correctness; gofmt stability is checked on the text with hole identifiers (holes never sit in aligned columns)"}})
-	reg(&Property{ID: "C02", Units: l3All("C02.")})
-	reg(&Property{ID: "C03", Units: append(l3All("C03."), collidingNamesUnit("C03."))})
+	reg(&Property{ID: "C02", Units: append(l3All("C02."),
+		l3Unit("defaults", map[string]int{"KINDS": 15, "DEPTH": 0, "DEFAULTS": 1, "NUMSHAPES": 4, "STRSHAPES": 3, "NONULL": 1}, "C02.",
+			"properties with a default that satisfies their own constraints: a document that omits (or nulls) the property is valid and must be accepted, whatever the constraints say about the Go zero value"))})
+	reg(&Property{ID: "C03", Units: append(l3All("C03."), collidingNamesUnit("C03."),
+		l3UnitT("null-typed-positions", map[string]int{"KINDS": 8208, "DEPTH": 1, "ITEMKINDS": 8192, "ARRSHAPES": 4, "N": 1, "REF": 0}, map[string]int{"KINDS": 8208, "DEPTH": 1, "ITEMKINDS": 8192, "ARRSHAPES": 4, "N": 2}, "C03.",
+			"positions of type null (a property; the items of an array with every combination of minItems/maxItems): only null is accepted there, any other JSON value is rejected"))})
 	reg(&Property{ID: "C08", Units: []Unit{
 		l3Unit("enums", map[string]int{"KINDS": 4544, "DEPTH": 0, "ENUMTEXT": 1}, "C08.", "string/integer/mixed/string-or-null enums, typed and untyped, inline and via $ref, required and optional; string members are plain words or text with format verbs, quotes, backslashes and a newline"),
 		l3Unit("enums-in-arrays-and-objects", map[string]int{"KINDS": 48, "DEPTH": 1, "ITEMKINDS": 4288}, "C08.", "enums as array items and object members"),
@@ -267,7 +274,7 @@ func init() {
 		{Name: "one-option-apart", Harness: "pkg/generator:HarnessC16", Layer: "L3",
 			Desc:   "one symbolic schema (shape grammar plus anyOf/allOf of $ref'd definitions) generated twice under configurations differing in exactly one option; the emitted files are compared at declaration level (hole identifiers by their terms): --only-models = same type declarations and no functions/variables; --tags = equal after erasing struct tags; without --extra-imports = the full output minus YAML methods/imports with identical JSON methods",
 			Bounds: "options --only-models, --tags (json only), --extra-imports; shapes G(1,1); --capitalization / --struct-name-from-title / --schema-root-type (identifier renaming) are not covered here; the comparison is a concrete per-path oracle on the symbolic output (the solver contributes the path partition)",
-			Quick:  map[string]int{"GRID": 2, "GRIDMAG": 36, "NUMSHAPES": 3, "STRSHAPES": 3, "ARRSHAPES": 3},
+			Quick:  map[string]int{"GRID": 2, "GRIDMAG": 36, "NUMSHAPES": 3, "STRSHAPES": 3, "ARRSHAPES": 3, "DEFAULTS": 1},
 			Panic:  "inconclusive"},
 		{Name: "cli/flag-wiring", Harness: ".:HarnessCLIFlagWiring", Layer: "L3",
 			Desc:   "main.go's Run closure under all 128 combinations of --extra-imports, --only-models, --struct-name-from-title, --min-sized-ints, a --capitalization, a --tags list and a --schema-root-type mapping: the bytes on stdout equal what the library emits for the generator.Config those flags denote (each flag reaches the field it names and no other)",
@@ -309,9 +316,11 @@ func init() {
 			Quick:  map[string]int{"R": 3}, Thor: map[string]int{"R": 4},
 			Panic:  "violation"},
 		{Name: "colliding-sibling-names", Harness: "pkg/generator:HarnessC14L3", Layer: "L3",
-			Desc:   "four sets of sibling property names that collide after normalisation (foo/Foo/FOO, a-b/a_b/aB, id/Id/ID/i_d, x1/x_1/X1), with and without --capitalization ID: the emitted struct type-checks (distinct field names), every json tag carries the exact original name exactly once, and a document with all keys (symbolic integers) is accepted",
+			Desc:   "every 3-subset (thorough: 4-subset of 8) of four 6-name families of sibling property names that collide after normalisation, including names that look like the suffixed form the de-duplication produces (foo/Foo/FOO/Foo_2/foo_2/foo2, a-b/a_b/aB/AB/'a b'/A_B_2, id/Id/ID/i_d/Id_2/id2, x1/x_1/X1/x-1/X1_2/X_1_2), with and without --capitalization ID: the emitted struct type-checks (distinct field names), every json tag carries the exact original name exactly once, and a document with all keys (symbolic integers) is accepted",
 			Bounds: "concrete name sets (representatives); per-field value binding is checked only through acceptance of the required keys",
+			Quick:  map[string]int{"POOL": 6, "SIBLINGS": 3}, Thor: map[string]int{"POOL": 8, "SIBLINGS": 4},
 			Panic:  "inconclusive"},
+		collidingNamesUnit("C14."),
 	}})
 	reg(&Property{ID: "C13", Units: []Unit{
 		{Name: "legacy-vs-current-keywords", Harness: "pkg/schemas:HarnessC13Keywords", Layer: "L1",
